@@ -62,9 +62,10 @@ def check_request(r, host, port, resource, extra_headers=(), protocols=(), compr
     if r.target != resource.encode('utf-8'):
         p.append('request target %r, expected %r' % (r.target, resource))
     hosts = get(r, b'host')
-    want_hosts = [('%s:%d' % (host, port)).encode()]
+    uri_host = '[%s]' % host if ':' in host else host        # RFC 3986 IP-literal
+    want_hosts = [('%s:%d' % (uri_host, port)).encode()]
     if (port == 80) or (port == 443):
-        want_hosts.append(host.encode())
+        want_hosts.append(uri_host.encode())
     if len(hosts) != 1 or hosts[0] not in want_hosts:
         p.append('Host header %r, expected one of %r' % (hosts, want_hosts))
     up = get(r, b'upgrade')
